@@ -172,7 +172,7 @@ class GeometricTruncated(Geometric, TruncationAndFoldingMixin):
         self._check_all(value)
 
         noisy_value = super().randomise(value)
-        return int(np.round(self._truncate(noisy_value)))
+        return int(round(self._truncate(noisy_value)))
 
 
 class GeometricFolded(Geometric, TruncationAndFoldingMixin):
@@ -212,7 +212,7 @@ class GeometricFolded(Geometric, TruncationAndFoldingMixin):
         return super()._check_bounds(lower, upper)
 
     def _fold(self, value):
-        return super()._fold(int(np.round(value)))
+        return super()._fold(int(round(value)))
 
     @copy_docstring(DPMechanism.bias)
     def bias(self, value):
@@ -233,4 +233,4 @@ class GeometricFolded(Geometric, TruncationAndFoldingMixin):
         self._check_all(value)
 
         noisy_value = super().randomise(value)
-        return int(np.round(self._fold(noisy_value)))
+        return int(round(self._fold(noisy_value)))
